@@ -149,6 +149,18 @@ func genC14(cw *caseWriter, seed uint64, tier string) {
 				}
 			}
 		}
+		// the date-time still held as TEXT when it reaches a date-time / timestamp output column (the input column is a
+		// string or an untyped Auto column, or declares the raw type string): what is written is the instant and the
+		// offset the text spells, rendered — not the text
+		insText := []colDesc{{name: "c", format: "string", ty: "none"}, {name: "c", format: "auto", ty: "none"}, {name: "c", format: "string", ty: "str"}, {name: "c", format: "datetime", ty: "str"}}
+		outsText := []colDesc{{name: "c", format: "datetime", ty: "none"}, {name: "c", format: "timestamp", ty: "none"}, {name: "c", format: "datetime", ty: "time"}, {name: "c", format: "timestamp", ty: "i64"}, {name: "c", format: "datetime", ty: "str"}}
+		for _, txt := range colTexts {
+			for _, ci := range insText {
+				for _, co := range outsText {
+					emitLine(cw, "C14", []colDesc{ci}, []colDesc{co}, []byte(`{"c":"`+txt+`"}`), true)
+				}
+			}
+		}
 		// an UNDECLARED member whose name differs from the column's by case only, before or after it, holding another
 		// instant: it is another member — the column keeps its own value, offset included
 		for _, txt := range colTexts[:12] {
